@@ -113,6 +113,21 @@ def rng_vs_single(rep, sites=RNG_SITES):
     rep.extra["range_vs_single_native"] = {"ranges": len(sites), "days compared": n}
 
 
+def partition_grid(rep):
+    """Native judge of DateRange (used when a partition / num_days obligation is undecided, and in the thorough tier): every (days, k)
+    with days in -2..45 and k in 0..14, plus a few long ranges, through the public num_days()/partition()."""
+    metas = [("dr", 738000, 738000 + d - 1, k) for d in range(-2, 46) for k in range(0, 15)]
+    metas += [("dr", 738000, 738000 + d - 1, k) for d, k in ((365, 10), (366, 7), (365, 64), (100, 33), (1000, 16), (2000, 64), (59, 8), (61, 60))]
+    repro = native_judge(metas)
+    by = {}
+    for key, desc, case, obs in repro:
+        by.setdefault(key, []).append((desc, case, obs))
+    for key, items in by.items():
+        rep.violation(key, items[0][0] + (" (+%d more)" % (len(items) - 1) if len(items) > 1 else ""), [c for _, c, _ in items[:20]], items[0][2])
+    rep.extra["partition_grid_native"] = {"pairs": len(metas)}
+    return bool(repro)
+
+
 def run(rep):
     quick = rep.tier == "quick"
     ks = [0, 1, 2, 3, 4, 5, 7, 8, 12, 16, 31, 32, 33, 64] if quick else list(range(0, 65))
@@ -153,6 +168,8 @@ def run(rep):
         if not repro:
             rep.inconclusive.append("solver counterexamples did not reproduce natively: %r" % (metas[:3],))
     rng_vs_single(rep)
+    if not quick or any((x["inconclusive"] or x["cands"]) for x in results if "partition" in x["name"] or "num_days" in x["name"]):
+        partition_grid(rep)
     rep.samples = [{"obligation": o["name"], "status": o["status"], "paths": o.get("paths")} for o in rep.obligations[:6]]
 
 
